@@ -12,6 +12,9 @@ open Dcg.Proofs.TemplateAbs Dcg.Proofs.TemplateIndent
 
 def NoBreak (v : List Char) : Prop := ∀ c ∈ v, isBreak c = false
 
+/-- the value does not end the line of the rendered text -/
+def NoNL (v : List Char) : Prop := ∀ c ∈ v, c ≠ '\n'
+
 /-- the value is the keyword `class` or starts with `class ` -/
 def startsClass (v : List Char) : Bool := v == classKw || (classKw ++ [' ']).isPrefixOf v
 
@@ -25,21 +28,28 @@ def docShape : Bool → List Char → Bool
   | false, _ :: r => docShape false r
 
 structure WordHyp (header : Bool) (v : List Char) : Prop where
-  noBreak : NoBreak v
+  noNL : NoNL v
   noLeadingBlank : v.head? ≠ some ' '
   notClass : startsClass v = false
   noHash : header = true → '#' ∉ v
 
 /-- what is assumed of the value written at a site, by the reviewed class of the site:
-identifiers, type hints, repr values, base lists, keys, decorators are ONE line that does not start
-with a blank and is not the keyword `class` (sites of class header lines contain no `#`);
+identifiers, type hints, repr values, base lists, keys, decorators are ONE line (no `\n`) that does
+not start with a blank and is not the keyword `class` (sites of class header lines contain no `#`);
 comment text is one line; docstring text has the shape `indent(4)` produces. -/
-def BlockHyp (e : Expr) (v : List Char) : Prop :=
+def BlockHypCore (e : Expr) (v : List Char) : Prop :=
   match slotKind e with
   | .word h => WordHyp h v
-  | .line => NoBreak v
+  | .line => NoNL v
   | .doc => docShape false v = true
   | .none => True
+
+/-- … and a value written inside a `{% filter indent(4) %}` block (`filterBlockSites`: the names and
+values of the pydantic config) contains none of the line boundaries of `str.splitlines`.  (Other
+values may: an enum value keeps a raw U+000B inside its quotes, which neither Python nor the block
+shape minds.) -/
+def BlockHyp (e : Expr) (v : List Char) : Prop :=
+  BlockHypCore e v ∧ (boneLine e = true → NoBreak v)
 
 theorem ne_nl_of_noBreak {c : Char} (h : isBreak c = false) : c ≠ '\n' := by
   intro e; subst e; simp [isBreak] at h
@@ -199,10 +209,10 @@ theorem run_word_lead (b : BSt) (hp : b.pos = .lead) (hh : b.hdr = false) {h : B
   | nil =>
     rw [brun_nil]; unfold wordAtLead; split <;> exact List.mem_cons_self
   | cons c r =>
-    have hcn : c ≠ '\n' := ne_nl_of_noBreak (hw.noBreak c List.mem_cons_self)
+    have hcn : c ≠ '\n' := hw.noNL c List.mem_cons_self
     have hsp : c ≠ ' ' := by
       intro e; apply hw.noLeadingBlank; simp [e]
-    have hv' : ∀ d ∈ r, d ≠ '\n' := fun d hd => ne_nl_of_noBreak (hw.noBreak d (List.mem_cons_of_mem _ hd))
+    have hv' : ∀ d ∈ r, d ≠ '\n' := fun d hd => hw.noNL d (List.mem_cons_of_mem _ hd)
     rw [brun_cons]
     have hstep : bstep b c = b.startContent c := by
       unfold bstep; simp [hcn, hsp, hp]
@@ -345,14 +355,15 @@ theorem mem_at {α} (a : α) : ∀ (l : List α) (i : Nat), l[i]? = some a → a
 
 theorem bslot_sound (e : Expr) (b : BSt) (qs : List BSt) (v : List Char)
     (hv : BlockHyp e v) (hs : bslot e b = some qs) : blockAuto.run b v ∈ qs := by
-  unfold BlockHyp at hv
+  replace hv := hv.1
+  unfold BlockHypCore at hv
   unfold bslot at hs
   obtain ⟨ind, pos, hdr, colon, cmt, phase, bad⟩ := b
   cases hk : slotKind e with
   | none => simp [hk] at hs
   | word h =>
     rw [hk] at hv hs
-    have hnl : ∀ c ∈ v, c ≠ '\n' := fun c hc => ne_nl_of_noBreak (hv.noBreak c hc)
+    have hnl : ∀ c ∈ v, c ≠ '\n' := hv.noNL
     cases pos with
     | kw k => cases hs
     | lead =>
@@ -385,7 +396,7 @@ theorem bslot_sound (e : Expr) (b : BSt) (qs : List BSt) (v : List Char)
           exact six_mem _ rfl x y
   | line =>
     rw [hk] at hv hs
-    have hnl : ∀ c ∈ v, c ≠ '\n' := fun c hc => ne_nl_of_noBreak (hv c hc)
+    have hnl : ∀ c ∈ v, c ≠ '\n' := hv
     cases pos with
     | kw k => cases hs
     | lead => cases hs
@@ -427,14 +438,7 @@ theorem bslot_sound (e : Expr) (b : BSt) (qs : List BSt) (v : List Char)
       · cases hs
 
 theorem boneLine_sound (e : Expr) (v : List Char) (h1 : boneLine e = true) (hv : BlockHyp e v) :
-    ∀ c ∈ v, isBreak c = false := by
-  unfold boneLine at h1
-  unfold BlockHyp at hv
-  cases hk : slotKind e with
-  | word h => simp only [hk] at hv; exact hv.noBreak
-  | line => simp only [hk] at hv; exact hv
-  | doc => simp [hk] at h1
-  | none => simp [hk] at h1
+    ∀ c ∈ v, isBreak c = false := hv.2 h1
 
 /-- the block-shape analysis with its value invariants -/
 def blockSound : Sound blockAuto where
